@@ -20,8 +20,18 @@ import (
 	"kapverif/rt"
 )
 
-// model time k <-> base + k seconds; base is a whole hour so that cron "*/N" (N | 60) agrees with integer div/mod.
-var base = time.Unix(1699999200, 0).UTC()
+// model time k <-> base + k seconds.  base = 2023-12-31T23:59:48Z: second 48 keeps cron "*/N" (N | 6) in step with
+// integer div/mod, and model second 12 (2024-01-01T00:00:00Z, a Monday) is at once an hour, day, 36 h and week boundary of
+// the grid Time.Truncate works on - so "@every 1d / 1w / 1d12h" tasks have an occurrence within reach (spec: Boundary).
+var base = time.Date(2023, 12, 31, 23, 59, 48, 0, time.UTC)
+
+const boundary = 12
+
+// probeID is never scheduled: Release(probeID) is a legal call without effect (see probe).
+const probeID = scheduler.ID(1 << 40)
+
+// unitName: the periods of the model's "unit" schedules (seconds, as options.Duration evaluates them at base).
+var unitName = map[int]string{86400: "1d", 604800: "1w", 129600: "1d12h", 2678400: "1mo", 31622400: "1y"}
 
 const (
 	maxExecutions = 3000 // per scheduler instance; a 36-step behaviour with the clock below 60 s stays far below
@@ -90,6 +100,8 @@ type sys struct {
 	where    string // behaviour / step being replayed (diagnostics only)
 	where0   string
 	co       *coordState // non-nil: API moves go through the real coordinator where they can
+	lane      int  // replay lane (picks the marker frame of this instance's API calls)
+	apiWaited bool // an API call returned only after the held executions were let go: the scripted part is over
 	ckFail   func() bool // seeded: should this checkpoint call report an error?
 }
 
@@ -202,8 +214,8 @@ func pickIDs(wof []int) (ids map[int]scheduler.ID, sent map[scheduler.ID]int) {
 	return
 }
 
-func newSys(t *rt.Trace, wof []int, ckFail func() bool) *sys {
-	y := &sys{t: t, mock: clock.NewMock(), notify: make(chan struct{}, 1), ckFail: ckFail,
+func newSys(t *rt.Trace, lane int, wof []int, ckFail func() bool) *sys {
+	y := &sys{t: t, lane: lane, mock: clock.NewMock(), notify: make(chan struct{}, 1), ckFail: ckFail,
 		sentExec: map[scheduler.ID]int{}, sentCk: map[scheduler.ID]int{}, seen: map[[2]int]int{}}
 	y.mock.Set(base)
 	y.real, y.sent = pickIDs(wof)
@@ -282,18 +294,30 @@ func (y *sys) waitFor(what string, pred func() bool, giveUp func() bool) bool {
 	}
 }
 
-// schedString: "@every Ns", cron "*/N * * * * * *", or - kind "until" - a cron expression with a year field that is
-// confined to the first minute of model time and to the seconds 0..end: it has a LAST occurrence (the largest
-// multiple of N <= end); after it cron.Next fails ("could not fulfil schedule due to year").
+// schedString: "@every Ns", "@every 1d|1w|1d12h|1mo|1y" (kind "unit", e = the period in seconds), cron
+// "*/N * * * * * *", or - kind "until" - a cron expression with a year field: confined to the last minute of 2023
+// (model seconds 0..end, end < boundary) or to the first minute of 2024 (boundary..end) it has a LAST occurrence
+// (the largest multiple of N <= end); after it cron.Next fails ("could not fulfil schedule due to year").
 func schedString(k string, e, end int) string {
 	switch {
 	case k == "every":
 		return fmt.Sprintf("@every %ds", e)
-	case k == "until":
-		if end < 1 || end > 59 {
-			rt.Fatalf("c17: ending schedule with end=%d (must be 1..59)", end)
+	case k == "unit":
+		u, ok := unitName[e]
+		if !ok {
+			rt.Fatalf("c17: no unit schedule with a period of %d s", e)
 		}
-		return fmt.Sprintf("0-%d/%d %d %d %d %d * %d", end, e, base.Minute(), base.Hour(), base.Day(), int(base.Month()), base.Year())
+		return "@every " + u
+	case k == "until" && end < boundary:
+		if end < 1 {
+			rt.Fatalf("c17: ending schedule with end=%d", end)
+		}
+		return fmt.Sprintf("%d-%d/%d 59 23 31 12 * 2023", base.Second(), base.Second()+end, e)
+	case k == "until":
+		if end <= boundary || end > boundary+59 {
+			rt.Fatalf("c17: ending schedule with end=%d", end)
+		}
+		return fmt.Sprintf("0-%d/%d 0 0 1 1 * 2024", end-boundary, e)
 	case e == 1:
 		return "* * * * * * *"
 	}
@@ -308,7 +332,9 @@ func schedString(k string, e, end int) string {
 // not (it is spinning on a busy worker) report false and let the caller decide.
 func (y *sys) safeAdd(d int, locked func()) bool {
 	for try := 0; try < 400; try++ {
-		y.smu.Lock()
+		if !y.lockSched() {
+			return false
+		}
 		target := y.mock.Now().Add(time.Duration(d) * time.Second)
 		if len(y.tmr.C) == 1 && timerWouldFire(y.tmr, target) {
 			y.smu.Unlock()
@@ -335,21 +361,29 @@ func (y *sys) callSchedule(id int, k string, e, o, end, last int) {
 		y.coordSchedule(id, k, e, o, end, last)
 		return
 	}
-	sc, _, err := scheduler.NewSchedule(schedString(k, e, end), base)
+	raw := base.Add(time.Duration(last) * time.Second)
+	// NewSchedule also returns lastScheduled aligned to the period ("@every" only); logged (al) and judged.
+	// A unit task (1d, 1w, ...) is scheduled from that aligned time - as the coordinator does it -, the others
+	// from the raw time (an "@every Ns" grid relative to any second is part of the alphabet).
+	sc, aligned, err := scheduler.NewSchedule(schedString(k, e, end), raw)
 	if err != nil {
 		rt.Fatalf("c17: NewSchedule(%q): %v", schedString(k, e, end), err)
 	}
-	y.t.Event("Call", rt.M{"t": "S", "id": id, "k": k, "e": e, "o": o, "end": end, "last": last})
+	from := raw
+	if k == "unit" {
+		from = aligned
+	}
+	y.t.Event("Call", rt.M{"t": "S", "id": id, "k": k, "e": e, "o": o, "end": end, "last": last, "al": rel(aligned)})
 	var rerr error
-	y.within("Schedule", func() {
-		rerr = y.s.Schedule(schedulable{y.real[id], sc, time.Duration(o) * time.Second, base.Add(time.Duration(last) * time.Second)})
+	extra := y.apiCall("Schedule", func() {
+		rerr = y.s.Schedule(schedulable{y.real[id], sc, time.Duration(o) * time.Second, from})
 	})
 	if y.co != nil && rerr == nil {
 		y.co.sched[id] = true
 		// scheduled behind the coordinator's back: the next coordinator move for this id starts from no record
 		delete(y.co.tasks, id)
 	}
-	y.t.Event("Ret", rt.M{"err": errStr(rerr)})
+	y.ret(rerr, extra)
 	y.kick()
 }
 
@@ -360,8 +394,8 @@ func (y *sys) callRelease(id int) {
 	}
 	y.t.Event("Call", rt.M{"t": "R", "id": id})
 	var rerr error
-	y.within("Release", func() { rerr = y.s.Release(y.real[id]) })
-	y.t.Event("Ret", rt.M{"err": errStr(rerr)})
+	extra := y.apiCall("Release", func() { rerr = y.s.Release(y.real[id]) })
+	y.ret(rerr, extra)
 	y.kick()
 }
 
@@ -397,8 +431,8 @@ func (y *sys) openGates() int {
 
 // selfQuiescent: by the scheduler's own account nothing is due (When() is zero or in the future).
 func (y *sys) selfQuiescent() bool {
-	w := y.s.When()
-	return w.IsZero() || w.After(y.mock.Now())
+	w, ok := y.when()
+	return ok && (w.IsZero() || w.After(y.mock.Now()))
 }
 
 // flush proves that every worker has finished what it was handed: one sentinel task per worker, due now,
@@ -475,7 +509,10 @@ func (y *sys) settle() {
 func (y *sys) syncLoop(sw, tk int) bool {
 	end := time.Now().Add(1 * time.Second)
 	for i := 0; ; i++ {
-		w := y.s.When() // RLock: never observes a pass half way
+		w, ok := y.when() // RLock: never observes a pass half way
+		if !ok {
+			return false
+		}
 		got := -1
 		if !w.IsZero() {
 			got = rel(w)
@@ -492,4 +529,25 @@ func (y *sys) syncLoop(sw, tk int) bool {
 			time.Sleep(50 * time.Microsecond)
 		}
 	}
+}
+
+// alignedProbe records what NewSchedule alone returns as aligned lastScheduled for one "@every" period and one
+// moment around the boundary (line Aligned, judged by the specification's Align) - all units, also those whose
+// occurrences the replay never reaches (1mo, 1y).
+func (y *sys) alignedProbe(rng interface{ Intn(int) int }) {
+	periods := []int{1, 2, 3, 86400, 604800, 129600, 2678400, 31622400}
+	e := periods[rng.Intn(len(periods))]
+	last := rng.Intn(31)
+	k, str := "unit", ""
+	if e < 60 {
+		k, str = "every", fmt.Sprintf("@every %ds", e)
+	} else {
+		str = "@every " + unitName[e]
+	}
+	_, al, err := scheduler.NewSchedule(str, base.Add(time.Duration(last)*time.Second))
+	if err != nil {
+		y.t.Event("Aligned", rt.M{"k": k, "e": e, "last": last, "al": 0, "err": err.Error()})
+		return
+	}
+	y.t.Event("Aligned", rt.M{"k": k, "e": e, "last": last, "al": rel(al)})
 }
